@@ -267,6 +267,127 @@ def check(ctx: Ctx) -> list[RuleResult]:
         else:
             r4.fail(f"{hm.short}:unguarded-update", hm.loc(c), "an overheard fragment is merged into the payload set without `self.tcs.zone_lock_idx != self.idx` being known there (the zone that holds the transfer lock would mix an overheard fragment into the set its own get/set is building)")
     out.append(r4)
+
+    # ---- R5 ---------------------------------------------------------------------------
+    # "always ends with the controller's schedule or an error": an error from a fragment/version exchange inside a transfer may be
+    # re-worded, never absorbed - a handler around transfer I/O that can complete normally turns a lost exchange into a success
+    from .common import module_scope
+
+    r5 = RuleResult("R5", "transfer I/O errors propagate", "every handler around a fragment/version exchange in Schedule._get_schedule/set_schedule re-raises on all of its paths", min_instances=1)
+    S = "ramses_rf.system.schedule.Schedule"
+    xfer = [repo.func(f"{S}._get_schedule"), repo.func(f"{S}.set_schedule")]
+
+    def does_io(g) -> bool:
+        return any(isinstance(n, ast.Call) and isinstance(n.func, ast.Attribute) and n.func.attr in ("async_send_cmd", "_schedule_version") for n in own_nodes(g.node))
+
+    n_try = 0
+    for top in xfer:
+        scope = [g for g in module_scope(ctx, top) if g is top or g.parent is top]
+        io_names = {g.name for g in scope if g is not top and does_io(g)}
+        for g in scope:
+            for t in own_nodes(g.node):
+                if not isinstance(t, ast.Try):
+                    continue
+                body_io = any(isinstance(n, ast.Call) and ((isinstance(n.func, ast.Attribute) and n.func.attr in ("async_send_cmd", "_schedule_version")) or (isinstance(n.func, ast.Name) and n.func.id in io_names)) for b in t.body for n in ast.walk(b))
+                if not body_io:
+                    continue
+                for h in t.handlers:
+                    classes = ctx.handler_classes(g, h) if h.type is not None else ["builtins.BaseException"]
+                    relevant = any(ctx.is_sub("ramses_tx.exceptions.ProtocolError", c) or ctx.is_sub(c, "ramses_tx.exceptions.ProtocolError") or c.endswith(("TimeoutError", ".Exception", "BaseException")) for c in classes)
+                    if not relevant:
+                        continue
+                    n_try += 1
+                    r5.instances += 1
+                    r5.nontrivial += 1
+                    if _always_raises(h.body):
+                        r5.ok({"handler": f"{g.short}: except {norm(h.type) if h.type is not None else ''}", "re-raises": True})
+                    else:
+                        r5.fail(f"{g.short}:transfer-error-absorbed:{norm(h.type)[:40] if h.type is not None else 'bare'}", g.loc(h), f"the handler `except {norm(h.type) if h.type is not None else ''}` around a fragment/version exchange in {g.short} can complete normally: a lost exchange is then reported as a finished transfer (a schedule the controller never took, or never sent)")
+    if n_try < 1:
+        raise AnalysisError("no handler around transfer I/O found in Schedule._get_schedule/set_schedule (set_schedule re-words TimeoutError)")
+    out.append(r5)
+
+    # ---- R6 ---------------------------------------------------------------------------
+    # the fetch loop may only be left normally with the assembled schedule: through a `break` under a test of it; running out of
+    # iterations (a bounded `for` without an `else: raise`, a `while` whose test can turn false) is a silent "no schedule"
+    r6 = RuleResult("R6", "the fetch loop ends with a schedule or an error", "the loop around the fragment requests has no normal exit other than a break under a test of the assembled schedule", min_instances=1)
+    gs = repo.func(f"{S}._get_schedule")
+    io_names = {g.name for g in module_scope(ctx, gs) if g.parent is gs and does_io(g)}
+    loops = [n for n in own_nodes(gs.node) if isinstance(n, (ast.While, ast.For, ast.AsyncFor)) and any(isinstance(c, ast.Call) and ((isinstance(c.func, ast.Name) and c.func.id in io_names) or (isinstance(c.func, ast.Attribute) and c.func.attr == "async_send_cmd")) for c in ast.walk(n))]
+    if not loops:
+        raise AnalysisError("_get_schedule: the fragment request loop was not found")
+    for lp in loops:
+        r6.instances += 1
+        r6.nontrivial += 1
+        brks = [b for b in ast.walk(lp) if isinstance(b, ast.Break)]
+        full_goal = ast.parse("self._full_schedule", mode="eval").body
+        brk_ok = bool(brks) and all(any(edge_implies(expand(gs.node, t, pure_only=False), v, full_goal) for t, v in facts_at(b)) for b in brks)
+        natural_exit = True
+        why = ""
+        if isinstance(lp, ast.While):
+            t = lp.test
+            if isinstance(t, ast.Constant) and t.value:
+                natural_exit = False
+                why = "while True"
+            else:
+                v = t.value if isinstance(t, ast.NamedExpr) else t
+                # next(<index> for <index>, x in enumerate(seq, K) if ...) with K >= 1 is never falsy (it raises StopIteration instead)
+                if isinstance(v, ast.Call) and norm(v.func) == "next" and len(v.args) == 1 and isinstance(v.args[0], ast.GeneratorExp):
+                    ge = v.args[0]
+                    g0 = ge.generators[0]
+                    if isinstance(g0.iter, ast.Call) and norm(g0.iter.func) == "enumerate" and len(g0.iter.args) == 2 and isinstance(g0.target, ast.Tuple) and isinstance(ge.elt, ast.Name) and isinstance(g0.target.elts[0], ast.Name) and ge.elt.id == g0.target.elts[0].id:
+                        k = ctx.consts.eval_in(gs, g0.iter.args[1])
+                        if isinstance(k, int) and k >= 1:
+                            natural_exit = False
+                            why = f"the loop test is an index counted from {k}: never falsy"
+        if natural_exit and lp.orelse and _always_raises(lp.orelse):
+            natural_exit = False
+            why = "the loop's else clause raises"
+        if natural_exit:
+            # or: the statements after the loop raise unless the schedule is complete
+            blk = getattr(lp, "parent", None)
+            for fld in ("body", "orelse", "finalbody"):
+                sib = getattr(blk, fld, None)
+                if isinstance(sib, list) and lp in sib:
+                    for st in sib[sib.index(lp) + 1 :]:
+                        if isinstance(st, ast.If) and _always_raises(st.body) and edge_implies(expand(gs.node, st.test, pure_only=False), False, full_goal):
+                            natural_exit = False
+                            why = "an incomplete schedule raises after the loop"
+        if not brk_ok:
+            r6.fail(f"{gs.short}:loop-break-without-schedule", gs.loc(lp), "the fragment loop can be left by a `break` that is not under a test of the assembled schedule: the fetch ends normally without the controller's schedule")
+        elif natural_exit:
+            r6.fail(f"{gs.short}:loop-falls-through", gs.loc(lp), "the fragment loop can run out (bounded iteration / a test that can turn false) and fall through: the fetch then ends normally with no schedule and no error")
+        else:
+            r6.ok({"loop": norm(lp)[:60], "only_normal_exit": "break under `self._full_schedule`", "because": why})
+    out.append(r6)
+
+    # ---- R7 ---------------------------------------------------------------------------
+    # an abandoned transfer must not keep running: the public entry points bound the transfer with wait_for() (which cancels it);
+    # a transfer wrapped in a task and merely waited for with a timeout carries on holding the system-wide lock and sending RQs
+    r7 = RuleResult("R7", "an abandoned transfer is cancelled", "the transfer coroutine is awaited directly or through wait_for(); a task made of it is cancelled on the timeout path", min_instances=1)
+    for pub in (repo.func(f"{S}.get_schedule"), repo.func(f"{S}.set_schedule")):
+        users = [c for c in own_nodes(pub.node) if isinstance(c, ast.Call) and isinstance(c.func, ast.Attribute) and c.func.attr in ("_get_schedule",)]
+        for c in users:
+            r7.instances += 1
+            r7.nontrivial += 1
+            par = getattr(c, "parent", None)
+            if isinstance(par, ast.Await) or (isinstance(par, ast.Call) and norm(par.func).endswith("wait_for") and par.args and par.args[0] is c):
+                r7.ok({"site": f"{pub.short}: {norm(par)[:70]}", "cancelled_on_timeout": True})
+                continue
+            # wrapped in a task: there has to be a cancel() of it
+            tname = None
+            if isinstance(par, ast.Call) and norm(par.func).endswith(("create_task", "ensure_future")):
+                asg = getattr(par, "parent", None)
+                if isinstance(asg, ast.Assign) and isinstance(asg.targets[0], ast.Name):
+                    tname = asg.targets[0].id
+            cancels = tname is not None and any(isinstance(x, ast.Call) and isinstance(x.func, ast.Attribute) and x.func.attr == "cancel" and norm(x.func.value) == tname for x in own_nodes(pub.node))
+            if cancels:
+                r7.ok({"site": f"{pub.short}: task {tname}", "cancelled": True})
+            else:
+                r7.fail(f"{pub.short}:transfer-not-cancelled", pub.loc(c), f"{pub.short} runs the transfer as `{norm(par)[:70]}` and never cancels it: when the caller's timeout expires the transfer carries on, holding the system-wide schedule lock and sending requests, so later transfers for this and other zones time out")
+    if r7.instances < 1:
+        raise AnalysisError("Schedule.get_schedule: the call of _get_schedule was not found")
+    out.append(r7)
     return out
 
 
